@@ -8,9 +8,11 @@ from vlib.s3stub import Stub
 from checks.c02 import entries
 
 PID = "C18"
-LEAN_MODULE = "NunVerif.Props.C18RoundTrip"
+LEAN_MODULE = "NunVerif.Props.C18Part"
 THEOREMS = ["Nun.C18_finding_identity_not_stored", "Nun.C18_finding_failed_upload_is_silent", "Nun.C18_snapshot_ignores_reclaim", "Nun.C18_round_trip_witness",
-            "Nun.C18_s3_roundtrip", "Nun.C18_s3_restores_what_disk_restores", "Nun.s3LoadLoop_encObjs", "Nun.C06_reclaim_roundtrip"]
+            "Nun.C18_s3_roundtrip", "Nun.C18_s3_restores_what_disk_restores", "Nun.s3LoadLoop_encObjs", "Nun.C06_reclaim_roundtrip",
+            "Nun.s3pLoadLoop_encPart", "Nun.s3pSnapPartition_step", "Nun.C18_part_snapshot_syncs", "Nun.C18_part_load_of_synced", "Nun.C18_part_roundtrip",
+            "Nun.PartInv_writeStep", "Nun.C18_part_inv_after_any_history", "Nun.PGood_fresh"]
 
 SETUP = ["RESET", "SESS 1", "C 1 auth adm pw", "C 1 create-db t tok newer", "C 1 use-db t tok"]
 AFTER = ["SESS 1", "C 1 auth adm pw", "C 1 use-db t tok", "C 1 keys", "C 1 get-safe a", "C 1 get-safe b"]
@@ -61,6 +63,7 @@ def run_impl(case, strategy, parts, faults, tag):
     for k in faults.get("put_once", []): st.store.fail_put_once.add(k)
     for k in faults.get("put_always", []): st.store.fail_put_always.add(k)
     for k in faults.get("get_once", []): st.store.fail_get_once.add(k)
+    for sfx in faults.get("get_always", []): st.store.fail_get_suffix.add(sfx)
     d = os.path.join(core.SCRATCH, f"c18_{tag}_{os.getpid()}"); shutil.rmtree(d, ignore_errors=True); os.makedirs(d)
     script = os.path.join(d, "script"); open(script, "w").write("\n".join(case) + "\n")
     env = dict(core.ENV, NVH_DIR=d, NUN_S3_API_URL=st.url(), NUN_S3_NUMBER_OF_PARTITIONS=str(parts), NUN_S3_RETRY="2")
@@ -115,6 +118,13 @@ def oracle(case, out_s3, out_disk, stub_log, strategy, faults):
     # an upload that failed for good loses what it carried: the data comparison is meaningless then, what matters is that it was reported
     lost_upload = any(x[0] == "PUT" and x[2] == 500 and not any(y[0] == "PUT" and y[1] == x[1] and y[2] == 200 for y in stub_log[stub_log.index(x):]) for x in stub_log)
     if lost_upload: rs = []
+    # a download that fails for good (every GET of the object answered 500): the start-up must REPORT it (it does not come up) — coming up
+    # without the data is the silent loss the property excludes; a start-up that fails is the report, not a defect
+    lost_gets = sorted({x[1] for x in stub_log if x[0] == "GET" and x[2] == 500 and not any(y[0] == "GET" and y[1] == x[1] and y[2] == 200 for y in stub_log)})
+    if lost_gets:
+        if rs and not rs[0][2]:
+            fails.append(Failure("failed-download-not-reported", f"every GET of {lost_gets} failed, the node started all the same"))
+        rs = []
     for i, ((snap, after, panic), (_, dafter, dpanic)) in enumerate(zip(rs, rd)):
         if panic and not dpanic:
             fails.append(Failure("start-fails", f"restart {i}: the node does not start from the object store")); break
@@ -170,7 +180,8 @@ def main(tier, seed):
     H, multi = histories(tier, seed)
     configs = [("s3", 1, {})] + [("s3_patition", p, {}) for p in (1, 3, 10)]
     fault_cfgs = [("s3", 1, {"put_once": [1]}), ("s3", 1, {"put_always": [2]}), ("s3", 1, {"get_once": [1]}),
-                  ("s3_patition", 3, {"put_once": [1]}), ("s3_patition", 3, {"put_always": [1]}), ("s3_patition", 3, {"get_once": [1]})]
+                  ("s3_patition", 3, {"put_once": [1]}), ("s3_patition", 3, {"put_always": [1]}), ("s3_patition", 3, {"get_once": [1]}),
+                  ("s3", 1, {"get_always": ["/nun.keys"]}), ("s3", 1, {"get_always": ["/nun.values"]}), ("s3_patition", 3, {"get_always": [".nun"]})]
     jobs = []
     for ci, c in enumerate(H):
         for (strategy, parts, faults) in configs: jobs.append((c, strategy, parts, faults, True))
@@ -202,7 +213,7 @@ def main(tier, seed):
                     if logical and logical[-1][1] == x[1] and logical[-1][2] == 500: logical[-1] = x
                     else: logical.append(x)
                 failputs = [i for i, x in enumerate(logical) if x[2] == 500]
-                if not faults.get("get_once"):
+                if not faults.get("get_once") and not faults.get("get_always"):
                     modelled = True
                     mout = run_model(c, ann, failputs, parts if strategy == "s3_patition" else 0)
                     norm = lambda l: "> RESET" if l.startswith("> RESET") else ("> SNAP" if l.startswith("> SNAP") else l)
@@ -259,13 +270,13 @@ def main(tier, seed):
                obligation_list=[dict(name=o[0], ok=o[1], detail=o[2]) for o in obligations],
                evaluations=len(results), distinct_nontrivial=len(hashes),
                rule=("operation / snapshot (incremental and space-reclaiming) / restart histories over one database (sets incl. multi-word and multi-byte values, removes, increments, versioned writes): all sequences of length L from an alphabet of 11 steps that contain a snapshot, plus seeded random longer ones, "
-                     "each run through the REAL storage code against an in-process S3 stub for strategy s3 and s3_patition with 1, 3 and 10 partitions, for a subset with faults (first PUT fails once, a PUT fails always, first GET fails once), and for a subset with the store selected through the split options NUN_STORAGE_READ_STRATEGY / NUN_STORAGE_WRITE_STRATEGY instead of the single one; the same history under the disk strategy is the reference: "
-                     "after the first restart the live keys, values, versions of EVERY user database and database t's id and strategy must agree; two-database histories include names related by prefix (t with t-old, t.v2, t2, t_old, tt; few / many keys both ways round). For strategy s3 the Lean model (s3Snapshot / s3LoadDb) runs the same history and every output line and the bytes of every stored object are compared. distinct by (strategy, partitions, trace hash)"),
+                     "each run through the REAL storage code against an in-process S3 stub for strategy s3 and s3_patition with 1, 3 and 10 partitions, for a subset with faults (first PUT fails once, a PUT fails always, first GET fails once, every GET of the keys object / the values object / the partition objects fails: the start-up must then fail, not come up without the data), and for a subset with the store selected through the split options NUN_STORAGE_READ_STRATEGY / NUN_STORAGE_WRITE_STRATEGY instead of the single one; the same history under the disk strategy is the reference: "
+                     "after the first restart the live keys, values, versions of EVERY user database and database t's id and strategy must agree; two-database histories include names related by prefix (t with t-old, t.v2, t2, t_old, tt; few / many keys both ways round). For strategy s3 (s3Snapshot / s3LoadDb) and for strategy s3_patition without injected faults (s3pSnapshot / s3pLoadDb, keys placed by the model's own SipHash-1-3) the Lean model runs the same history and every output line and the name and bytes of every stored object are compared. distinct by (strategy, partitions, trace hash)"),
                samples=[jobs[0][0][:14]], traces_validated_against_impl=len([r for r in results if r.get("modelled") and not r.get("dis")]), traces_validated_per_strategy={st: len([r for r in results if r.get("modelled") and not r.get("dis") and r.get("strategy") == st]) for st in ("s3", "s3_patition")},
                disagreements=len(disagreements), oracle_failures=len(failures), failure_classes={c: len([f for f in failures if f.cls == c]) for c in {f.cls for f in failures}},
                put_requests=sum(r.get("puts", 0) for r in results), notes=notes)
     core.write_evidence(PID, dict(property_id=PID, tier=tier, seed=seed, level="proof", coverage=cov,
-                                  assumptions=["the stub is S3-compatible for the three calls the code makes", "strategy s3_patition is not modelled in Lean (oracle only)"], wall_s=round(time.time() - t0, 2), violations=len(violations)))
+                                  assumptions=["the stub is S3-compatible for the three calls the code makes", "strategy s3_patition: modelled (Model/S3Part.lean, SipHash-1-3 placement executable, theorems for an arbitrary placement function); the answer of the listing call is a hypothesis of C18_part_load_of_synced; runs with injected faults are judged by the oracle only"], wall_s=round(time.time() - t0, 2), violations=len(violations)))
     for p, suffix in violations: print(f"VIOLATION property={PID} replay={p}{suffix}")
     log(f"[{PID}] {tier}: {len(results)} runs, {len(hashes)} distinct, {len(disagreements)} disagreements, {len(failures)} oracle failures ({cov['failure_classes']}), obligations {n_ok}/{n_ob}, {round(time.time() - t0, 1)}s")
     return 1 if violations else 0
